@@ -258,6 +258,14 @@ impl<'tcx> Cx<'tcx> {
                 return obj(vec![("k", s("promoted")), ("idx", n(p.as_u32())), ("ty", tyj)]);
             }
         }
+        let is_aggregate = matches!(cty.kind(), ty::TyKind::Adt(..) | ty::TyKind::Tuple(..) | ty::TyKind::Array(..));
+        if is_aggregate {
+            if let Ok(val) = c.const_.eval(tcx, self.env, c.span) {
+                if let Some(j) = self.const_value_agg(val, cty) {
+                    return j;
+                }
+            }
+        }
         if let Some(si) = c.const_.try_eval_scalar_int(tcx, self.env) {
             let size = si.size();
             let v = si.to_bits(size);
@@ -311,6 +319,34 @@ impl<'tcx> Cx<'tcx> {
         for (fv, fty) in d.fields.iter() {
             fields.push(self.const_value(*fv, *fty, depth + 1)?);
         }
+        Some(obj(vec![
+            ("k", s("agg")),
+            ("variant", d.variant.map(|v| n(v.as_u32())).unwrap_or(J::Null)),
+            ("fields", J::Arr(fields)),
+            ("ty", tyj),
+        ]))
+    }
+
+    /// Aggregate-typed constants are always destructured (even when they fit in a scalar).
+    fn const_value_agg(&mut self, val: ConstValue, ty: Ty<'tcx>) -> Option<J> {
+        let tcx = self.tcx;
+        if let ty::TyKind::Adt(def, _) = ty.kind() {
+            if def.is_union() {
+                return None;
+            }
+        }
+        if matches!(val, ConstValue::ZeroSized) {
+            let tyj = self.ty(ty);
+            return Some(obj(vec![("k", s("zst")), ("ty", tyj)]));
+        }
+        let d = tcx.try_destructure_mir_constant_for_user_output(val, ty)?;
+        let mut fields = Vec::new();
+        for (fv, fty) in d.fields.iter() {
+            let is_agg = matches!(fty.kind(), ty::TyKind::Adt(..) | ty::TyKind::Tuple(..) | ty::TyKind::Array(..));
+            let fj = if is_agg { self.const_value_agg(*fv, *fty).or_else(|| self.const_value(*fv, *fty, 1)) } else { self.const_value(*fv, *fty, 1) };
+            fields.push(fj?);
+        }
+        let tyj = self.ty(ty);
         Some(obj(vec![
             ("k", s("agg")),
             ("variant", d.variant.map(|v| n(v.as_u32())).unwrap_or(J::Null)),
